@@ -117,6 +117,22 @@ impl Prop for C01 {
         } else {
             &self.seeds[rng.below(self.seeds.len())]
         };
+        // Generated variable TrueType fonts (composites incl. composites of empty glyphs, empty glyphs,
+        // numberOfHMetrics < numGlyphs, gvar in every packed encoding, optional avar/HVAR/MVAR) from the
+        // C12 generator, unfaulted or with 1-2 faults: the fixtures' variable fonts have no composites.
+        if rng.chance(1, 14) {
+            let vf = super::c12::c12_gen::gen_vfont(rng, true);
+            let built = super::c12::c12_gen::build_font(&vf, rng);
+            let mut data = built.bytes;
+            let mut desc = vec!["generated-variable-font".to_string()];
+            cx.class("seed:generated-variable-font");
+            for _ in 0..rng.below(3) {
+                let a = faults::apply_fault(rng, &mut data, &[]);
+                desc.push(a.desc);
+            }
+            self.run(cx, rng, "generated/variable.ttf", &data, &desc);
+            return;
+        }
         // F6: container faults behind the compression layer (WOFF2 transforms, WOFF directory/zlib)
         if rng.chance(1, 5) {
             let name = f.name.clone();
